@@ -209,6 +209,32 @@ func evalC20Load(w *h.Worker, stream []byte, complete bool, viaProto bool, qs []
 			}
 		}
 	}
+	// the stream (whole, and cut short at its last bytes, behind its trailing zero
+	// bytes and just behind the header) handed over as the front of a larger
+	// caller-owned arena: whatever the load answers, the arena is byte-identical
+	// afterwards, spare capacity included
+	{
+		arena := make([]byte, len(stream)+64)
+		for i := range arena {
+			arena[i] = 0xee
+		}
+		copy(arena, stream)
+		want := append([]byte{}, arena...)
+		cuts := []int{len(stream), 32, 33, len(bytes.TrimRight(stream, "\x00"))}
+		for n := len(stream) - 1; n >= 0 && n >= len(stream)-8; n-- {
+			cuts = append(cuts, n)
+		}
+		for _, n := range cuts {
+			if n < 0 || n > len(stream) {
+				continue
+			}
+			loadInto(startInstance("new"), arena[:n], viaProto)
+			w.Trans++
+			if !bytes.Equal(arena, want) {
+				return &h.Viol{Sig: "load-modifies-arena", Msg: fmt.Sprintf("Unmarshal of the first %d of %d stream bytes, handed over as the front of a larger caller-owned buffer, wrote into that buffer at byte %d (spare capacity is caller-owned memory)", n, len(stream), firstDiff(arena, want))}
+			}
+		}
+	}
 	for pi := 0; pi < 3; pi++ {
 		buf := append([]byte{}, stream...)
 		st := startInstance("new")
@@ -302,7 +328,7 @@ func runC20(r *h.Run) {
 		return
 	}
 	layouts := legacyLayouts()
-	r.Rule = "build clause: every key set of K(U21,k) (k = 3 quick / 4 thorough) and the scaffolded sets x encoders {I32, String16, Bytes3 (Encode returns the caller's slice), VarEnc, LenBytes and Dummy over [][]byte values (encoders that are not the identity on the caller's byte slices)} x nil + all run patterns x all 81 option combinations over {nil,false,true} on sets <= 2 keys (8 normalised beyond) x {Opt passed by value, Opt slice spread}: keys, values and Opt (pointer identity and pointed-to Booleans) are compared with deep copies taken before, then the caller's value bytes, key slice and option cells are overwritten and every observation (additionally, with the pass-through Bytes encoder, values carved out of one caller-owned arena with spare capacity, each in turn shorter than the encoder width: the arena must be byte-identical after the build) (answers to Q, scans, Stat, String, Marshal bytes) and the deep digest must be unchanged; load clause: the marshaled stream of each of those tries and every legacy layout's stream of every key set of K(U21,2) and the legacy families: the buffer equals its copy after Unmarshal / proto.Unmarshal, then it is overwritten with 0x00, 0xff and an address-dependent pattern: observations AND deep digest unchanged; marshal clause: the bytes returned by Marshal / proto.Marshal are overwritten with the same patterns: observations, digest and a second Marshal unchanged. A state is a distinct (stream, layout) resp. build input"
+	r.Rule = "build clause: every key set of K(U21,k) (k = 3 quick / 4 thorough) and the scaffolded sets x encoders {I32, String16, Bytes3 (Encode returns the caller's slice), VarEnc, LenBytes and Dummy over [][]byte values (encoders that are not the identity on the caller's byte slices)} x nil + all run patterns x all 81 option combinations over {nil,false,true} on sets <= 2 keys (8 normalised beyond) x {Opt passed by value, Opt slice spread}: keys, values and Opt (pointer identity and pointed-to Booleans) are compared with deep copies taken before, then the caller's value bytes, key slice and option cells are overwritten and every observation (additionally, with the pass-through Bytes encoder, values carved out of one caller-owned arena with spare capacity, each in turn shorter than the encoder width: the arena must be byte-identical after the build) (answers to Q, scans, Stat, String, Marshal bytes) and the deep digest must be unchanged; load clause: the marshaled stream of each of those tries and every legacy layout's stream of every key set of K(U21,2) and the legacy families: the buffer equals its copy after Unmarshal / proto.Unmarshal, then it is overwritten with 0x00, 0xff and an address-dependent pattern: observations AND deep digest unchanged; the stream whole and cut short (last 8 bytes, behind its trailing zeros, behind the header) as the front of a larger caller-owned arena: the arena incl. spare capacity is byte-identical after the load, accepted or rejected; marshal clause: the bytes returned by Marshal / proto.Marshal are overwritten with the same patterns: observations, digest and a second Marshal unchanged. A state is a distinct (stream, layout) resp. build input"
 	r.Assumptions = []string{"retention is detected through a deep digest of everything reachable from the instance (reflect + unsafe, unexported fields included): memory reachable only through an uintptr or a closure would be missed", "loadability itself is decided by C05/C06"}
 	k := 3
 	if thorough {
